@@ -214,3 +214,22 @@ Theorem C09_leaf_nodes_entry_code_is_model : forall st m (no_attr : list bool),
                                   (match no_attr with [b] => b | _ => false end).
 Proof. exact leaf_nodes_entry_code_is_model. Qed.
 Print Assumptions C09_leaf_nodes_entry_code_is_model.
+
+(* ---- Map.LeafPaths / Map.LeafValues (leafnode.go), translated from the current sources (make([]T, len(ln)) and the
+   counting loop that fills it) and instantiated with the translated LeafNodes: the paths and the values of the model's
+   leaf nodes, in the same order (GenProofs/PureG8.v) *)
+From Mxj Require Import GenProofs.PureG8.
+
+Theorem C09_leaf_paths_code_is_model : forall st m no_attr,
+  exists ps, fn_LeafPaths (run_LeafNodes st) st m no_attr = Ret ps /\
+    ps = map fst (leaf_nodes (g_attrPrefix st) (g_textK st) (g_useDotNotation st) (VMap m)
+                    (match no_attr with [b] => b | _ => false end)).
+Proof. exact leaf_paths_code_is_model. Qed.
+Print Assumptions C09_leaf_paths_code_is_model.
+
+Theorem C09_leaf_values_code_is_model : forall st m no_attr,
+  exists vs, fn_LeafValues (run_LeafNodes st) st m no_attr = Ret vs /\
+    vs = map snd (leaf_nodes (g_attrPrefix st) (g_textK st) (g_useDotNotation st) (VMap m)
+                    (match no_attr with [b] => b | _ => false end)).
+Proof. exact leaf_values_code_is_model. Qed.
+Print Assumptions C09_leaf_values_code_is_model.
